@@ -107,15 +107,16 @@ def machine_vars_part(C, store_kind):
 
     def store_small(I, name):
         """BOUNDED: a store of 0..2 variables with symbolic, distinct names"""
-        n = I.ctx.fork(3)
+        n = I.ctx.fork(common.bound(2, 3) + 1)
         ents = []
         for i in range(n):
             k = VStr(z3.String("%s.key%d" % (name, i)))
             ent = I.new_dict([(f, I.fresh(sh, "%s[%d].%s" % (name, i, f))) for f, sh in ENTRY_FIELDS],
                              "%s[%d]" % (name, i))
             ents.append((k, ent))
-        if n == 2:
-            I.ctx.assume(ents[0][0].t != ents[1][0].t)
+        for i_ in range(n):
+            for j_ in range(i_ + 1, n):
+                I.ctx.assume(ents[i_][0].t != ents[j_][0].t)
         return I.new_dict(ents, name)
     MACHINE = ObjS("MachineController", config=Rec(mpf=Rec(save_machine_vars_to_disk=Bool)), clock=ObjS("Clock"),
                    events=ObjS("EventManager"), monitors=Rec(machine_vars=Seq(Fn)))
@@ -248,7 +249,7 @@ def machine_vars_part(C, store_kind):
 
 def bounded_part(C, _dget, last_saved, ENTRY_FIELDS):
     """whole-store functions, BOUNDED: stores / data files of at most 2 variables (symbolic names and values)"""
-    B = "BOUNDED: every store / data file with at most 2 variables, symbolic names and values"
+    B = "BOUNDED: every store with at most %d variables / data file with at most 2, symbolic names and values" % common.bound(2, 3)
 
     def disk_matches_store(I):
         """the dict handed to the data manager is exactly the persisted subset: name -> {value, expire: timeout,
